@@ -167,6 +167,39 @@ pub fn main(a: &Args) {
                 emit_case(&mut krate, &Case { origin: name, text: g.text(), inputs, lex: (true, true) }, &mut rep);
             }
         }
+        if a.shard == 1 {
+            // tables with hundreds of states and dozens of terminals / non-terminals (enum sizes, wide rows, long match arms)
+            let mut made_big = 0;
+            for _ in 0..20 {
+                let g = gen_big(&mut rng);
+                if !g.reduced() || g.cyclic() {
+                    continue;
+                }
+                let mut inputs = vec![String::new(), "k00 ?".into()];
+                for _ in 0..12 {
+                    let budget = rng.range(4, 40);
+                    if let Some(mut w) = random_sentence(&g, &mut rng, budget) {
+                        if w.len() <= 60 {
+                            inputs.push(render_ws(&g, &w, &mut rng).0);
+                            if !w.is_empty() {
+                                let k = rng.below(w.len());
+                                w[k] = rng.below(g.terms.len());
+                                inputs.push(render_plain(&g, &w).0);
+                            }
+                        }
+                    }
+                }
+                let before = krate.modules.len();
+                emit_case(&mut krate, &Case { origin: "big".into(), text: g.text(), inputs, lex: (true, true) }, &mut rep);
+                if krate.modules.len() > before {
+                    rep.count("big_family_cases", 1);
+                    made_big += 1;
+                    if made_big >= (if a.thorough { 3 } else { 1 }) {
+                        break;
+                    }
+                }
+            }
+        }
         let mut i = 0;
         let mut made = 0;
         while made < n && i < n * 20 {
